@@ -100,7 +100,8 @@ def program(draw, depth):
             inner = [blk_]
         body = body + inner + [["def", "tail", 1, False]]
     stray = draw(st.sampled_from([None] * 9 + ["else_end", "end_end", "else_start", "end_start", "else_after_closed",
-                                               "else_in_clause", "else_in_group", "else_deeper_after_node"]))
+                                               "else_in_clause", "else_in_group", "else_deeper_after_node",
+                                               "else_in_unselected_clause", "second_end_in_unselected_clause"]))
     # blank and comment lines are legal anywhere and must not end (or keep open) a clause
     fill = draw(st.one_of(st.none(), st.lists(st.sampled_from([0, 0, 0, 1, 2, 3]), min_size=8, max_size=8)))
     return {"base": base, "items": body, "widths": draw(st.lists(st.integers(1, 4), min_size=6, max_size=6)), "stray": stray,
@@ -206,6 +207,10 @@ def render(case):
         out = out + body + ["@case true", "  @else", "    q1 int = 1", "@end"]
     elif s == "else_in_group":
         out = out + body + ["grp", "  @else", "    q1 int = 1"]
+    elif s == "else_in_unselected_clause":
+        out = out + body + ["@case false", "  @else", "    q1 int = 1", "@end"]
+    elif s == "second_end_in_unselected_clause":
+        out = out + body + ["@case false", "  @case true", "    q1 int = 1", "  @end", "  @end", "@end"]
     elif s == "else_deeper_after_node":
         out = out + body + ["@case true", "  q0 int = 1", "  @else", "    q1 int = 2", "@end"]
     else:
